@@ -65,5 +65,5 @@ Theorem c06_after_sprint_partial : forall E k acts c c' evs,
   wf_contact E c -> kind_wf E k -> Forall (fun fm => mod_wf E (snd fm)) acts ->
   run_sprint E k acts c = (c', evs) ->
   Consistent E c' /\ wf_contact E c'.
-Proof. intros E k acts c c' evs H1 H2 H3 H4. exact (proj2 (after_sprint E k acts c c' evs H1 H2 H3 H4)). Qed.
+Proof. exact consistent_after_sprint. Qed.
 Print Assumptions c06_after_sprint_partial.
